@@ -14,8 +14,8 @@ Theorem C02_position_def : forall d p, reach d p -> sp_pos p = pos_of d (offset 
 Proof. exact reach_pos_of. Qed.
 Print Assumptions C02_position_def.
 
-(* the rune and width under the cursor are those of the input at that offset, after any
-   amount of backtracking and memoised skipping (all template variants, memo on or off) *)
+(* the rune and width under the cursor are those of the input at that offset, and the offset lies within the
+   input (sp_ok), after any amount of backtracking and memoised skipping (all template variants, memo on or off) *)
 Theorem C02_cursor_coherent : forall c fuel e s r s',
   I c s -> parseExprWrap c fuel e s = Ok r s' -> sp_ok (cData c) (pt s').
 Proof. exact savepoint_coherent. Qed.
